@@ -703,17 +703,21 @@ def import_impl(key):
 
 
 FOREIGN_CLASS = 4  # HS: no record type has an implementation in this class -> RFC 3597 generic form
+# lookup orders of the fresh-process scenario -> class of the first ("foreign") lookup.  ANY (255) and
+# NONE (254) are the classes of prerequisite / delete RRs of UPDATE messages (and of anything a peer sends);
+# ANY is also the class-independent key of the library's registry.
+FOREIGN_ORDERS = {"foreign-first": 4, "any-first": 255, "none-first": 254, "home-first": 4}
 
 
-def foreign_event(key, rdtype, wire):
-    """the type's RDATA decoded in a class that has no implementation for it"""
-    ev = {"op": "foreign", "b": list(wire), "cls": FOREIGN_CLASS}
-    r, rd = decode(FOREIGN_CLASS, rdtype, bytes(wire), None)
+def foreign_event(key, rdtype, wire, fclass=FOREIGN_CLASS):
+    """the type's RDATA decoded in another class than its home class (HS, ANY, NONE)"""
+    ev = {"op": "foreign", "b": list(wire), "cls": fclass}
+    r, rd = decode(fclass, rdtype, bytes(wire), None)
     ev.update(r)
     ev["gen"] = isinstance(rd, dns.rdata.GenericRdata)
     if rd is not None:
-        fixed_point(FOREIGN_CLASS, rdtype, rd, None, ev)
-    ev.update(frame_probe(FOREIGN_CLASS, rdtype, bytes(wire)))
+        fixed_point(fclass, rdtype, rd, None, ev)
+    ev.update(frame_probe(fclass, rdtype, bytes(wire)))
     return ev
 
 
@@ -742,10 +746,11 @@ def fresh_traces(order, items):
             return evs
 
         try:
-            if order == "foreign-first":
-                tr["ev"] = [foreign_event(key, rdtype, it["wire"])] + home()
+            fclass = FOREIGN_ORDERS[order]
+            if order != "home-first":
+                tr["ev"] = [foreign_event(key, rdtype, it["wire"], fclass)] + home()
             else:
-                tr["ev"] = home() + [foreign_event(key, rdtype, it["wire"])]
+                tr["ev"] = home() + [foreign_event(key, rdtype, it["wire"], fclass)]
         except (Exception, Hang) as e:  # noqa: BLE001
             tr["ev"] = [{"op": "crash", "exc": type(e).__name__, "msg": str(e)[:200]}]
         finally:
